@@ -169,6 +169,8 @@ static int new_packet(int sk_fd, int can_socket) {
 
     while (msg_proc_bytes < msg_length) {
 
+        // Flags and data must not leak from one ACF message into the next
+        memset(&frame, 0, sizeof(struct canfd_frame));
         acf_pdu = &pdu[proc_bytes + msg_proc_bytes];
 
         if (!is_valid_acf_packet(acf_pdu)) {
